@@ -54,7 +54,7 @@ theorem prox_raises_of_not_hasProx (E : Env α) :
     intro v lam h hp
     simp only [hasProx, Bool.and_eq_false_iff] at h
     match v with
-    | .arr _ => exact ⟨.type, rfl⟩
+    | .arr _ => exact ⟨.value, rfl⟩
     | .blk [] => exact ⟨.value, rfl⟩
     | .blk (b :: bs) =>
       simp only [prox]
@@ -101,7 +101,7 @@ theorem eval_raises_of_not_hasEval (E : Env α) :
     intro x h
     simp only [hasEval, Bool.and_eq_false_iff] at h
     match x with
-    | .arr _ => exact ⟨.type, rfl⟩
+    | .arr _ => exact ⟨.value, rfl⟩
     | .blk [] => exact ⟨.value, rfl⟩
     | .blk (b :: bs) =>
       simp only [eval]
